@@ -5,6 +5,7 @@ import (
 	"verif/harness/core"
 	"verif/harness/props/c01"
 	"verif/harness/props/c03"
+	"verif/harness/props/c05"
 	"verif/harness/props/c17"
 )
 
@@ -13,6 +14,7 @@ func Specs() map[string]*core.Spec {
 	for _, s := range []*core.Spec{
 		c01.Spec(),
 		c03.Spec(),
+		c05.Spec(),
 		c17.Spec(),
 	} {
 		m[s.ID] = s
